@@ -129,6 +129,7 @@ func C19(run *core.Run) {
 		pw := map[string]string{"p1": set[0], "p2": set[1], "p3": set[2]}
 		size := sizes[bi%len(sizes)]
 		var kf, pristine *wallet.KeyFile
+		createdFrom, createdPw := "", ""
 		rep := map[string]interface{}{"kind": "wallet-behaviour", "behaviour": b, "password_set": set[:]}
 		for si, s := range b.Steps {
 			switch s.A {
@@ -157,6 +158,7 @@ func C19(run *core.Run) {
 					goto next
 				}
 				pristine = kf
+				createdFrom, createdPw = s.E, pw[s.Pw]
 				_, k0, err := full.DeriveForIndexPath(0)
 				if err != nil || k0.Address != kf.BaseAddress {
 					run.Report("C19:base-address-is-not-index-0", fmt.Sprintf("recorded base address %v, index-0 address %v (%v)", kf.BaseAddress, k0, err), rep)
@@ -184,6 +186,32 @@ func C19(run *core.Run) {
 						goto next
 					}
 				}
+			}
+		}
+		// epilogue: the loaded file has been through the behaviour's decryptions (right and wrong passwords); it must still
+		// decrypt to the entropy it was created from, twice, and rewriting it must not change what is on disk
+		if pristine != nil && createdFrom != "" {
+			for k := 0; k < 2; k++ {
+				ks, err := pristine.Decrypt(createdPw)
+				decrypts++
+				if err != nil || !bytes.Equal(ks.Entropy, walletEntropy(createdFrom, size)) {
+					run.Report("C19:loaded-file-stops-decrypting", fmt.Sprintf("after the behaviour's decryptions the same loaded key file no longer decrypts to its entropy with the right password (attempt %d: %v)", k+1, err), rep)
+					goto next
+				}
+			}
+			before, _ := os.ReadFile(pristine.Path)
+			if err := pristine.Write(); err != nil {
+				core.Fatal("write: %v", err)
+			}
+			after, _ := os.ReadFile(pristine.Path)
+			if !bytes.Equal(before, after) {
+				run.Report("C19:rewritten-file-differs", "writing a loaded key file again after it was decrypted changes the bytes on disk", rep)
+				goto next
+			}
+			if re, err := wallet.ReadKeyFile(pristine.Path); err != nil {
+				run.Report("C19:written-file-unreadable", fmt.Sprintf("ReadKeyFile after the second Write: %v", err), rep)
+			} else if ks, err := re.Decrypt(createdPw); err != nil || !bytes.Equal(ks.Entropy, walletEntropy(createdFrom, size)) {
+				run.Report("C19:rewritten-file-does-not-decrypt", fmt.Sprintf("the key file written again after a decryption no longer decrypts to its entropy (%v)", err), rep)
 			}
 		}
 	next:
@@ -233,7 +261,11 @@ func c19Derivation(run *core.Run) {
 	if err != nil {
 		core.Fatal("%v", err)
 	}
-	again, _ := tmp.Decrypt("d")
+	again, err := tmp.Decrypt("d")
+	if err != nil {
+		run.Report("C19:loaded-file-stops-decrypting", fmt.Sprintf("the second decryption of the same loaded key file fails: %v", err), nil)
+		return
+	}
 	for _, idx := range []uint32{0, 1, 2, 1<<31 - 1} {
 		p1, k1, err1 := full.DeriveForIndexPath(idx)
 		p2, k2, err2 := again.DeriveForIndexPath(idx)
